@@ -335,18 +335,31 @@ pub fn shrink(
 ) -> (Vec<u64>, u64) {
     let start = Instant::now();
     let mut runs = 0u64;
-    let mut best = choices;
+    fn strip(mut v: Vec<u64>) -> Vec<u64> {
+        // trailing zeros are what an exhausted replay vector yields anyway
+        while v.last() == Some(&0) {
+            v.pop();
+        }
+        v
+    }
+    fn smaller(a: &[u64], b: &[u64]) -> bool {
+        // shortlex
+        a.len() < b.len() || (a.len() == b.len() && a < b)
+    }
+    let mut best = strip(choices);
     let mut try_candidate = |cand: &Vec<u64>, runs: &mut u64| -> Option<Vec<u64>> {
         *runs += 1;
         let out = execute(prop, Choices::replay(cand.clone()), os_seed, thorough, false);
         match (&out.violation, &out.harness_error) {
-            (Some(v), None) if same_violation(v, target) => Some(out.choices),
+            (Some(v), None) if same_violation(v, target) => Some(strip(out.choices)),
             _ => None,
         }
     };
     // normalise: the recorded vector of the replay (cuts everything after the violation)
     if let Some(c) = try_candidate(&best, &mut runs) {
-        best = c;
+        if smaller(&c, &best) {
+            best = c;
+        }
     }
     let over = |runs: u64| runs >= budget_runs || start.elapsed().as_secs() >= budget_s;
     let mut improved = true;
@@ -354,14 +367,14 @@ pub fn shrink(
         improved = false;
         // 1. delete chunks
         let mut size = (best.len() / 2).max(1);
-        while size >= 1 && !over(runs) {
+        loop {
             let mut i = 0;
             while i < best.len() && !over(runs) {
                 let mut cand = best.clone();
                 let end = (i + size).min(cand.len());
                 cand.drain(i..end);
                 if let Some(c) = try_candidate(&cand, &mut runs) {
-                    if c.len() < best.len() || c.iter().sum::<u64>() < best.iter().sum::<u64>() {
+                    if smaller(&c, &best) {
                         best = c;
                         improved = true;
                         continue;
@@ -369,14 +382,14 @@ pub fn shrink(
                 }
                 i += size;
             }
-            if size == 1 {
+            if size == 1 || over(runs) {
                 break;
             }
             size /= 2;
         }
         // 2. zero chunks
         let mut size = (best.len() / 2).max(1);
-        while size >= 1 && !over(runs) {
+        loop {
             let mut i = 0;
             while i < best.len() && !over(runs) {
                 let end = (i + size).min(best.len());
@@ -386,7 +399,7 @@ pub fn shrink(
                         *x = 0;
                     }
                     if let Some(c) = try_candidate(&cand, &mut runs) {
-                        if c.len() < best.len() || (c.len() == best.len() && c.iter().sum::<u64>() < best.iter().sum::<u64>()) {
+                        if smaller(&c, &best) {
                             best = c;
                             improved = true;
                         }
@@ -394,7 +407,7 @@ pub fn shrink(
                 }
                 i += size;
             }
-            if size == 1 {
+            if size == 1 || over(runs) {
                 break;
             }
             size /= 2;
@@ -411,7 +424,7 @@ pub fn shrink(
                     let mut cand = best.clone();
                     cand[i] = nv;
                     if let Some(c) = try_candidate(&cand, &mut runs) {
-                        if c.len() <= best.len() {
+                        if smaller(&c, &best) {
                             best = c;
                             improved = true;
                             break;
